@@ -272,6 +272,11 @@ func GenStopTimeUpdate(r *core.Rand, k int) *gtfsrt.TripUpdate_StopTimeUpdate {
 		sr := gtfsrt.TripUpdate_StopTimeUpdate_ScheduleRelationship(core.Pick(r, []int32{0, 1, 2, 3}))
 		u.ScheduleRelationship = &sr
 	}
+	if r.Chance(1, 6) {
+		// a field of the message that the library does not surface: it must not leak into the fields it does surface
+		// (a stop_id that is absent stays absent even when a real-time platform assignment is given)
+		u.StopTimeProperties = &gtfsrt.TripUpdate_StopTimeUpdate_StopTimeProperties{AssignedStopId: S(fmt.Sprintf("assigned-platform-%d", k))}
+	}
 	return u
 }
 
